@@ -533,3 +533,5 @@ def subchecks():
 
 
 SELECTORS = {}
+
+FUZZ = [("paa", 15000), ("interval_segmenter", 10000), ("sliding_window_segmenter", 10000), ("imputer", 15000)]
